@@ -267,6 +267,22 @@ func scenarioLateCommit(x *explorer) *scenario {
 	return sc
 }
 
+// blockResult hands node i a fast-sync block result: the named block and a commit vote
+// list made of the known precommits of the masked signers for (round, block).
+func (sc *scenario) blockResult(i int, d brDesc) {
+	sc.tick()
+	raw, votes := sc.x.blockResultBytes(d)
+	if raw == nil {
+		sc.log = append(sc.log, fmt.Sprintf("V%d: (block result %+v cannot be built)", i, d))
+		return
+	}
+	sc.nodes[i].deliverBlockResult(raw, votes)
+	sc.collect(i)
+	sc.note(i, gEvent{Kind: "blockresult", Bytes: hex.EncodeToString(votes), Blk: hex.EncodeToString(raw),
+		Ev: fmt.Sprintf("block result {block %s, commit votes of round %d by validators mask %04b}", d.block, d.round, d.mask)})
+	sc.pumpQuiet(i)
+}
+
 // late runs the callback of node i's k-th cancelled-but-dispatched block-manager request.
 func (sc *scenario) late(i, k int) {
 	sc.tick()
